@@ -258,6 +258,16 @@ def run(ctx):
             pool = ["007", "2.10", "false", "null", "0150", "1e5", "'q'", "00123", " 12 ", "True"]
             initial = {rng.choice(KEYS_JSON): rng.choice(pool), "serial": rng.choice(pool), "deep": {"zip": rng.choice(pool), "l": [rng.choice(pool), "x"]}}
             cases[-1] = dict(cases[-1], initial=initial, reread={})
+    # skeleton first, content later: the file holds EMPTY dicts (at the top, nested, arriving in an append) that later appends fill
+    for i in range(ctx.n(12, 120)):
+        fmt = ["native", "foam", "json"][i % 3]
+        k1, k2 = rng.sample(["settings", "parts", "mesh", "solver"], 2)
+        skeleton = {k1: {}, k2: {"hull": {}, "n": 1}}
+        fill1 = {k1: {"steps": 100 + i, "sub": {}}, k2: {"hull": {"length": 120}}}
+        fill2 = {k1: {"sub": {"tol": 0.5}}, "late": {}}
+        fill3 = {"late": {"x": 1}}
+        seq = [(skeleton, "w"), (fill1, "a"), (fill2, "a"), (fill3, "a")][: rng.randrange(2, 5)]
+        cases.append({"fmt": fmt, "seq": seq, "alias": {}, "reread": {}})
     for c in cases:
         r = oracle(c)
         if r:
